@@ -19,11 +19,15 @@ R03.8 the having condition, the aggregate expressions of an aggr clause and comp
 R03.9 an aggregation used as the operand of another operator: Aggregation.validate and StructureVisitor._build_aggregation_structure are
       evaluated (E6) for sum / count / min / avg x {no grouping, group by, group except} and must declare the same components and
       roles (grouping identifiers, measures or int_var, viral attributes)
+R03.10 the type-aware aggregate override _build_agg_expr is evaluated (E6) over operator x component type x {clause, dataset}: where it
+      returns an expression, that expression applies the operator's own SQL aggregate, and for operators whose result can be
+      fractional (avg, median, stddev*, var*) it does not cast the aggregate to an integer type
 Not decided: the values DuckDB computes; null handling inside DuckDB's aggregates.
 """
 from __future__ import annotations
 
 import ast
+import re
 from typing import Dict, List, Optional, Set, Tuple
 
 from sa import astctor, e7, g4, registryx, sqlx, transp
@@ -248,5 +252,36 @@ def run(rep: Report, tier: str) -> None:  # noqa: C901
                                    f"transpiler's structure of the intermediate result is {[(n, str(r)) for n, r in vb] if vb else b}: an operator applied to the aggregation in the same statement "
                                    f"(abs(sum(DS_1 group by A))) drops or mistreats the differing components"))
     rep.floor("R03.9 aggregation structures compared", n9, 16)
+    # ---- R03.10 the type-aware aggregate override: decision table ----
+    rep.rule("R03.10", "type-aware aggregate override (_build_agg_expr): applies the operator's own aggregate; no integer cast around an aggregate whose result can be fractional")
+    from sa.e6 import ClassVal, Interp, Raised
+    fa = P.func(f"{TR}._build_agg_expr")
+    FRACTIONAL = {"avg", "median", "stddev_pop", "stddev_samp", "var_pop", "var_samp"}
+    n10 = 0
+    for op in ("sum", "avg", "count", "median", "min", "max", "stddev_pop", "stddev_samp", "var_pop", "var_samp"):
+        for tname in ("Integer", "Number", "String", "Boolean", "Date", "Duration", "TimePeriod", "TimeInterval", None):
+            for dl in (False, True):
+                dt_ = ClassVal(f"vtlengine.DataTypes.{tname}") if tname else None
+                try:
+                    got = Interp(P).call(fa, {"op": op, "col_ref": '"M"', "data_type": dt_, "dataset_level": dl})
+                except Unmodelled as e:
+                    raise AnalysisError(f"R03.10: _build_agg_expr outside the evaluator's language: {e}")
+                except Raised as e:
+                    got = f"<raises {getattr(e.exc, 'kind', e.exc)}>"
+                n10 += 1
+                if got is None:
+                    continue
+                rep.instance("R03.10", f"override/{op}/{tname}/{'dataset' if dl else 'clause'}", sample={"sql": got})
+                txt = str(got)
+                own = re.search(r"\b(ARG_)?" + re.escape(op.upper()) + r"\s*\(", txt) is not None
+                narrowing = re.search(r"CAST\s*\(.*\b" + re.escape(op.upper()) + r"\s*\(.*AS\s+(BIGINT|INTEGER|INT|SMALLINT|HUGEINT)\b", txt, re.S) is not None
+                if not own:
+                    rep.add(transp.fnd("R03.10", f"override/{op}/{tname}/aggregate", fa, fa.node.lineno,
+                                       f"{op} over a {tname} component is computed as `{txt}`: not the SQL aggregate {op.upper()} of the operand"))
+                if narrowing and op in FRACTIONAL:
+                    rep.add(transp.fnd("R03.10", f"override/{op}/{tname}/integer-cast", fa, fa.node.lineno,
+                                       f"{op} over a {tname} component is computed as `{txt}`: the result of {op} can be fractional (median of 1 and 2 is 1.5; semantic analysis declares it a Number) "
+                                       f"and the integer cast rounds it"))
+    rep.floor("R03.10 cells", n10, 150)
     rep.assumptions = ["DuckDB's aggregates of the same name implement the VTL aggregate operators (null measure values ignored)",
                        "SQLBuilder.having() conjoins conditions (read from sql_builder.py: _having_conditions.append)"]
